@@ -2,11 +2,25 @@
 //
 // Space (factorised as in DESIGN §5 C03): kg ∈ {Gennaro, Canetti, trusted dealer, Lindell17 dealer, Lindell17 DKG
 // (thorough)} x access structure (shared catalogue) x group (7) x NIZK compiler (3, Gennaro) x identifier
-// assignment x API ∈ {round by round, runner over routers} x two seeds. Oracle: see checkShards (oracle_test.go):
-// agreement on pk / MSP / verification vector / public shares, share·G == public share in ref/curve, EVERY subset of
-// shareholders reconstructs dlog(pk) (library and ref/linalg) iff the reference truth table says qualified,
-// reconstruction in the exponent, different seeds ⇒ different keys, CBOR store/reload ⇒ Equal shard that still signs
-// (Lindell22 BIP-340, verified by a reference verifier), runner pk == round-by-round pk.
+// assignment x API ∈ {round by round, runner over routers} x two seeds, one execution per configuration, EVERY
+// non-empty subset of shareholders as inner cases.
+//
+//	structures/k256/{dkg,dealer}   every threshold, unanimity, labelled CNF, hierarchical (<=3 levels) and boolexpr
+//	                               (<=3 leaves) structure with 2<=n<=3 on k256/Fiat–Shamir x {Gennaro, Canetti | dealer};
+//	                               thorough: n<=4, boolexpr <=4 leaves (dealer <=5), labelled CNFs of n=4, T(4,7)
+//	groups-x-compilers/T(2,3)      7 groups x {Gennaro x {Fiat–Shamir, Fischlin, randomised Fischlin}, Canetti, dealer}
+//	id-assignments/k256            {T(2,3), cnf3{0|12}} (thorough: all of catalog.Small()) x every identifier
+//	                               assignment of the family's documented domain x {Gennaro, Canetti, dealer}
+//	runner-vs-rounds (SCHED)       the two slices above through the real runners over routers on schednet, same
+//	                               seeds as the round-by-round run (quick: Fischlin compilers on k256 only)
+//	lindell17-dealer/{k256,p256}   catalog.Small() n<=3 (thorough: all, + identifier assignments)
+//	lindell17-dkg/k256 (thorough)  T(2,2), T(2,3), cnf3{0|12}: rounds and runners over dealt base shards
+//
+// Oracle: checkShards (oracle_test.go) — agreement on pk / MSP / verification vector / public shares; share·G ==
+// public share == (MSP row)·V in ref/curve; every subset reconstructs dlog(pk) (library, two scheme constructions,
+// and ref/linalg over the MSP rows) iff the reference truth table says qualified, else refusal + rank test;
+// reconstruction in the exponent; different seeds ⇒ different keys; CBOR store/reload ⇒ Equal shard that signs
+// (Lindell22 BIP-340, reference verifier in bip340_test.go) exactly as the original; runner pk == round-by-round pk.
 package c03
 
 import (
@@ -245,6 +259,17 @@ func buildCatalogue() {
 			dkgStructs = append(dkgStructs, t47)
 			dealStructs = append(dealStructs, t47)
 		}
+		if f := os.Getenv("C03_STRUCT"); f != "" { // triage aid: restrict section (1) to the structures whose name contains f
+			keep := func(l []catalog.Entry) (o []catalog.Entry) {
+				for _, e := range l {
+					if strings.Contains(e.Name, f) {
+						o = append(o, e)
+					}
+				}
+				return o
+			}
+			dkgStructs, dealStructs = keep(dkgStructs), keep(dealStructs)
+		}
 	})
 }
 
@@ -324,12 +349,20 @@ func TestCheck(t *testing.T) {
 			dkg = append(dkg, gc{gK256, cfg{kg: "gennaro", nic: fs, e: e, ids: ord(e.P.N), sign: 1}})
 			dkg = append(dkg, gc{gK256, cfg{kg: "canetti", e: e, ids: ord(e.P.N), sign: 1}})
 		}
+		inDKG := map[string]bool{}
+		for _, e := range dkgStructs {
+			inDKG[e.Name] = true
+		}
 		for _, e := range dealStructs {
-			deal = append(deal, gc{gK256, cfg{kg: "dealer", e: e, ids: ord(e.P.N), sign: 1}})
+			sg := 1
+			if !inDKG[e.Name] {
+				sg = 0 // thorough: the extra 5-leaf boolean expressions are dealt and checked, not signed with
+			}
+			deal = append(deal, gc{gK256, cfg{kg: "dealer", e: e, ids: ord(e.P.N), sign: sg}})
 		}
 		// MaxFails: the dummy-party CNFs (keyCNFDummy) each fail once; they must not stop the section
-		explore("structures/k256/dkg", dkg, engine.Opts{MaxFails: 100000, Budget: engine.Budget(5*time.Minute, 30*time.Minute)})
-		explore("structures/k256/dealer", deal, engine.Opts{MaxFails: 100000, Budget: engine.Budget(5*time.Minute, 30*time.Minute)})
+		explore("structures/k256/dkg", dkg, engine.Opts{MaxFails: 100000, Budget: engine.Budget(5*time.Minute, 15*time.Minute)})
+		explore("structures/k256/dealer", deal, engine.Opts{MaxFails: 100000, Budget: engine.Budget(5*time.Minute, 15*time.Minute)})
 	}
 
 	// (2) groups x compilers on T(2,3)
@@ -364,7 +397,7 @@ func TestCheck(t *testing.T) {
 				}
 			}
 		}
-		explore("id-assignments/k256", l, engine.Opts{Budget: engine.Budget(4*time.Minute, 15*time.Minute)})
+		explore("id-assignments/k256", l, engine.Opts{Budget: engine.Budget(4*time.Minute, 10*time.Minute)})
 	}
 
 	// (4) the networked runners on the slices (2) and (3), compared with the round-by-round run
@@ -393,7 +426,7 @@ func TestCheck(t *testing.T) {
 				}
 			}
 		}
-		explore("runner-vs-rounds", l, engine.Opts{Serial: true, Procs: 16, CrashTrace: true, Engine: "SCHED", Budget: engine.Budget(5*time.Minute, 30*time.Minute)})
+		explore("runner-vs-rounds", l, engine.Opts{Serial: true, Procs: 16, CrashTrace: true, Engine: "SCHED", Budget: engine.Budget(5*time.Minute, 15*time.Minute)})
 	}
 
 	// (5) Lindell17
